@@ -6,11 +6,11 @@
    [SkipNow st]  it left the script through T.Skip.
 
    Not modelled (a line that uses them fails and sets [s_unmodelled]): ttyin, ttyout,
-   regular expressions outside the fragment of [parse_pat], programs other than the helper (they are "not found"),
+   regular expressions outside the fragment of [parse_re] (TsRegex.v), programs other than the helper (they are "not found"),
    deadlines (ctxt.Err), and every text written to the log. *)
 From Coq Require Import List Bool Arith NArith.
 From Coq.Strings Require Import Byte.
-From GI Require Import Lib.Bytes Gen.TsRunConsts Txtar.Txtar TsRun.TsFs TsRun.TsState.
+From GI Require Import Lib.Bytes Gen.TsRunConsts Txtar.Txtar TsRun.TsFs TsRun.TsRegex TsRun.TsState.
 Import ListNotations.
 
 Inductive outcome := Done (st : state) | Failed (st : state) | SkipNow (st : state).
@@ -311,17 +311,18 @@ Definition script_match (neg : bool) (args : list bytes) (text : bytes) (is_grep
   | None => Failed st
   | Some (cnt, args') =>
       if negb (Nat.eqb (length args') (if is_grep then 2 else 1)) then Failed st else
-      match parse_pat (hd [] args') with
+      match parse_re (hd [] args') with
       | None => Failed (set_unmodelled st)
-      | Some p =>
+      | Some re =>
           let otext := if is_grep then read_file (s_fs st) (mkabs st (nth 1 args' [])) else Some text in
           match otext with
           | None => Failed st
           | Some tx =>
-              if neg then (if has_match p tx then Failed st else Done st)
-              else if negb (has_match p tx) then Failed st
+              if negb (re_byte_safe re tx) then Failed (set_unmodelled st)
+              else if neg then (if re_has_match re tx then Failed st else Done st)
+              else if negb (re_has_match re tx) then Failed st
               else match cnt with
-                   | Some n => if N.eqb (count_matches p tx) n then Done st else Failed st
+                   | Some n => if N.eqb (re_count re tx) n then Done st else Failed st
                    | None => Done st
                    end
           end
